@@ -34,6 +34,7 @@ def run (kv : List (String × String)) : Res := Id.run do
   let mut tags : List String := [s!"strat.{strat}", s!"kind.{kind}", s!"result.{(result.splitOn ":").head!}"]
   let crossing : Bool := decide (src + n > end_)
   tags := (if crossing then "range.crossing" else if src + n == end_ then "range.atEnd" else "range.inside") :: tags
+  if get kv "head" == some "1" then tags := "range.atStart" :: tags
   if n % 8 != 0 then tags := "len.partialWord" :: tags
   let model := match strat with
     | "v" => vmemRead m src n
@@ -56,6 +57,6 @@ def run (kv : List (String × String)) : Res := Id.run do
   if mres != result then return .mismatch s!"strategy {strat} [{src},+{n}) region end {end_} kind {kind}: model={mres} impl={result}" tags
   if let some bs := model then
     if bs != data then return .mismatch s!"strategy {strat}: returned bytes differ from the model" tags
-  return .ok tags (some s!"{strat}/{kind}/{src % 8}/{n % 8}/{n / 4096}/{crossing}/{result.take 3}")
+  return .ok tags (some s!"{strat}/{kind}/{src % 8}/{n % 8}/{n / 4096}/{crossing}/{(get kv "head").isSome}/{result.take 3}")
 
 end Mdw.Drv.C17
